@@ -20,7 +20,10 @@ def run(pid, tier, tmp, replay):
             if l.startswith('{"e":"SReset"'):
                 k = json.loads(l)['fault']['kind']
                 kinds[k] = kinds.get(k, 0) + 1
-        return {'fault_executions_by_kind': kinds, 'exhaustive': False}
+        q = [json.loads(l) for l in lines if l.startswith('{"e":"StatQuery"')]
+        defaults = sorted({x['file'] for x in q if x['avail'] and x['kind'] == 'empty'})
+        return {'fault_executions_by_kind': kinds, 'exhaustive': False, 'stat_queries': len(q),
+                'stat_queries_unavailable': sum(1 for x in q if not x['avail']), 'empty_file_defaults': defaults}
     env_fault = None
     if replay:
         first = json.loads(open(replay).readline())
@@ -31,4 +34,6 @@ def run(pid, tier, tmp, replay):
                             trace_module='Tick_Trace.tla', trace_cfg='Tick_Trace.cfg',
                             mc_module='MC_Tick.tla', mc_cfg='MC_C10_%s.cfg' % tier, assume=ASSUME,
                             sample_re=r'\{"e":"(SReset|ProcsOpen|Kill|TickEnd)"', extra_cov=extra, mc_workers=4,
-                            driver_timeout=3000)
+                            driver_timeout=3000,
+                            post=lambda cov: ['key=empty-file-default:%s an EMPTY %s is answered with a default value instead of "unavailable"' % (f, f)
+                                              for f in cov.get('empty_file_defaults', [])])
